@@ -138,10 +138,7 @@ class STr(MTr):
                 self.bad(s, f"return of type {v.ty}")
             return " ".join(pre) + f" ret (Some {v.code})"
         if isinstance(s, ast.If) and not s.orelse and len(s.body) == 1 and isinstance(s.body[0], ast.Expr) and isinstance(s.body[0].value, ast.Call) \
-                and dotted(s.body[0].value.func) == "self._transform_weights" \
-                and all(dotted(n) in ("self.weights", "self") for n in ast.walk(s.test) if isinstance(n, ast.Attribute)) \
-                and all(n.id in ("self", "str", "isinstance", "WeightingStrategy") for n in ast.walk(s.test) if isinstance(n, ast.Name)) \
-                and all(dotted(n.func) == "isinstance" for n in ast.walk(s.test) if isinstance(n, ast.Call)):
+                and dotted(s.body[0].value.func) == "self._transform_weights":   # the test itself is translated by transform_weights() below
             # `if self.weights is None or isinstance(self.weights, str): self._transform_weights(n_levels)`: normalisation of the configured
             # weights (a strategy name becomes a list, once); afterwards self.weights is the list `ws` the machine configuration carries
             a = s.body[0].value.args
